@@ -989,7 +989,17 @@ class Parser:
         """Parse a string."""
         import io
 
-        tok_stream = generate_tokens(io.StringIO(source).readline)
+        reader = io.StringIO(source).readline
+        lines: dict[int, str] = {}
+
+        def readline() -> str:
+            line = reader()
+            if line:
+                lines[len(lines) + 1] = line
+            return line
+
+        tok_stream = generate_tokens(readline)
         tokenizer = Tokenizer(tok_stream, verbose=verbose)
+        tokenizer._lines = lines  # every physical line as it was read, also one that carries no token (a bare backslash)
         parser = cls(tokenizer, verbose=verbose, py_version=py_version)
         return parser.parse(mode if mode == "eval" else "file")
